@@ -82,24 +82,30 @@ func Mutations(s *spec.Spec) []*Mutation {
 	}
 	// ---- user types: required attributes, views
 	reach := ReachableTypes(s)
+	// usage qualifies a class by how the mutated type is used: goa only generates code for types a
+	// method payload or result reaches ("" suffix); error-only and unused types get their own classes
+	usage := func(name string) string {
+		switch reach[name] {
+		case "data":
+			return ""
+		case "error":
+			return "(error-only)"
+		}
+		return "(unused)"
+	}
 	for _, ut := range s.Types {
 		ut := ut
 		if ut.Def != nil && ut.Def.Kind == spec.Object && ut.Kind != "alias" {
-			class := "required-attr@type"
-			if !reach[ut.Name] {
-				// a type no method uses: goa generates no code for it
-				class = "required-attr@unused-type"
-			}
-			add(class, NoAttr, "type "+ut.Name, func() { ut.Def.Required = append(ut.Def.Required, NoAttr) })
+			add("required-attr@type"+usage(ut.Name), NoAttr, "type "+ut.Name, func() { ut.Def.Required = append(ut.Def.Required, NoAttr) })
 		}
 		if ut.Kind == "result" {
 			for _, v := range ut.Views {
 				v := v
-				add("view-attr", NoAttr, "view "+v.Name+" of "+ut.Name, func() { v.Attrs = append(v.Attrs, spec.ViewAttr{Name: NoAttr}) })
+				add("view-attr"+usage(ut.Name), NoAttr, "view "+v.Name+" of "+ut.Name, func() { v.Attrs = append(v.Attrs, spec.ViewAttr{Name: NoAttr}) })
 				for i := range v.Attrs {
 					i := i
 					if a := ut.Def.Attr(v.Attrs[i].Name); a != nil && isResultRef(s, a.Type) {
-						add("view-nested-view", NoView, "view "+v.Name+" of "+ut.Name+" attribute "+a.Name, func() { v.Attrs[i].View = NoView })
+						add("view-nested-view"+usage(ut.Name), NoView, "view "+v.Name+" of "+ut.Name+" attribute "+a.Name, func() { v.Attrs[i].View = NoView })
 					}
 				}
 			}
@@ -108,13 +114,19 @@ func Mutations(s *spec.Spec) []*Mutation {
 			for _, a := range ut.Def.Attrs {
 				a := a
 				if isResultRef(s, a.Type) && a.View == "" {
-					add("attr-view", NoView, "attribute "+a.Name+" of "+ut.Name, func() { a.View = NoView })
+					add("attr-view"+usage(ut.Name), NoView, "attribute "+a.Name+" of "+ut.Name, func() { a.View = NoView })
 				}
 			}
 		}
 	}
 	// ---- API level
-	add("http-error-name@api", NoError, "API HTTP", func() {
+	apiClass := "http-error-name@api(no-http-service)"
+	for _, sv := range s.Services {
+		if !sv.NoHTTP {
+			apiClass = "http-error-name@api"
+		}
+	}
+	add(apiClass, NoError, "API HTTP", func() {
 		s.API.HTTPErrs = append(s.API.HTTPErrs, &spec.HTTPError{Name: NoError, Status: 418})
 	})
 	for _, sv := range s.Services {
@@ -336,54 +348,59 @@ func GRPCSpec(r *vc.Rand, id string) *spec.Spec {
 	return s
 }
 
-// ReachableTypes returns the user types some method payload, result or error
-// refers to, directly or through other types.
-func ReachableTypes(s *spec.Spec) map[string]bool {
-	seen := map[string]bool{}
-	var wt func(t *spec.Type)
-	wt = func(t *spec.Type) {
+// ReachableTypes tells how each user type is used: "data" when some method
+// payload or result refers to it (directly or through other types), "error"
+// when only error declarations do; unused types are absent.
+func ReachableTypes(s *spec.Spec) map[string]string {
+	seen := map[string]string{}
+	var wt func(t *spec.Type, how string)
+	wt = func(t *spec.Type, how string) {
 		if t == nil {
 			return
 		}
 		if t.Kind == spec.Ref {
-			if seen[t.Ref] {
+			if old, ok := seen[t.Ref]; ok && (old == "data" || old == how) {
 				return
 			}
-			seen[t.Ref] = true
+			seen[t.Ref] = how
 			if ut := s.Type(t.Ref); ut != nil {
-				wt(ut.Def)
+				wt(ut.Def, how)
 				if ut.Extend != "" {
-					wt(&spec.Type{Kind: spec.Ref, Ref: ut.Extend})
+					wt(&spec.Type{Kind: spec.Ref, Ref: ut.Extend}, how)
 				}
 				if ut.Reference != "" {
-					wt(&spec.Type{Kind: spec.Ref, Ref: ut.Reference})
+					wt(&spec.Type{Kind: spec.Ref, Ref: ut.Reference}, how)
 				}
 			}
 			return
 		}
 		for _, a := range []*spec.Attr{t.Elem, t.Key} {
 			if a != nil {
-				wt(a.Type)
+				wt(a.Type, how)
 			}
 		}
 		for _, a := range t.Attrs {
-			wt(a.Type)
+			wt(a.Type, how)
 		}
 	}
 	we := func(es []*spec.ErrorDecl) {
 		for _, e := range es {
-			wt(e.Type)
+			wt(e.Type, "error")
+		}
+	}
+	for _, sv := range s.Services {
+		for _, m := range sv.Methods {
+			for _, a := range []*spec.Attr{m.Payload, m.Result, m.StreamP} {
+				if a != nil {
+					wt(a.Type, "data")
+				}
+			}
 		}
 	}
 	we(s.API.Errors)
 	for _, sv := range s.Services {
 		we(sv.Errors)
 		for _, m := range sv.Methods {
-			for _, a := range []*spec.Attr{m.Payload, m.Result, m.StreamP} {
-				if a != nil {
-					wt(a.Type)
-				}
-			}
 			we(m.Errors)
 		}
 	}
